@@ -117,6 +117,8 @@ func caps(n string, k int) string {
 	return n
 }
 
+var nearMissSuffix = []string{"uary", "day", "hem", "ble", "x", "e", "ember", "s"}
+
 var stepSamples = []string{"0", "1", "2", "3", "5", "7", "100", "1000", "9223372036854775807",
 	"9223372036854775808", "18446744073709551616", "-1", "+2", "", "x", "2/3", "*"}
 
@@ -183,6 +185,21 @@ func singleTerms(r *hx.Rand, f int, exhaustive bool) []string {
 	}
 	if f == 5 {
 		out = append(out, "mon-fri", "sun-sat/2", "sat-sun", "sunday", "7", "0-7", "MON-FRI")
+	}
+	// near misses of the names: a valid abbreviation with a suffix or prefix (full English names,
+	// "Mayhem", "mon1", "1mon"), as a value, as either end of a range, with a step, as a step
+	for i, n := range names {
+		full := n + nearMissSuffix[(i+f)%len(nearMissSuffix)]
+		out = append(out, full, caps(full, 1), caps(full, 2), n+"1", "1"+n, n+n, "x"+n, n[:2]+"x",
+			fmt.Sprintf("%s-%s", names[0], full), fmt.Sprintf("%s-%s", full, names[len(names)-1]),
+			fmt.Sprintf("%s/2", full), fmt.Sprintf("%s-%s/2", names[0], caps(full, r.Intn(3))),
+			fmt.Sprintf("%d/%s", lo, n), fmt.Sprintf("*/%s", n), fmt.Sprintf("%d-%d/x", lo, hi))
+	}
+	if f == 4 {
+		out = append(out, "Mayhem", "Marble", "Decimal", "Junior", "Augustus", "octo", "nove", "FEBRUARY", "March", "apr1l")
+	}
+	if f == 5 {
+		out = append(out, "Monday", "tues", "Wednesday", "thurs", "Friday", "SATURDAY", "Sunny", "mond", "fri13")
 	}
 	for _, n := range others {
 		out = append(out, n, strings.ToUpper(n))
@@ -300,7 +317,7 @@ var spacePieces = []string{" ", "  ", "\t", "\n", "\r", "\v", "\f", "\u00a0", "\
 
 var mutationPieces = append([]string{"0", "1", "2", "5", "9", "*", "/", "-", ",", "?", "@", "=", "+", "\xff", "\x00",
 	"99999999999999999999", "18446744073709551616", "9223372036854775808", "-5", "+5", "\u0130", "\u212a", "\u017f",
-	"TZ=", "CRON_TZ=", "@every ", "@daily", "jan", "MON", "fr\u0130", "a", "Z", "_", ".", "e"}, spacePieces...)
+	"TZ=", "CRON_TZ=", "@every ", "@daily", "jan", "MON", "fr\u0130", "a", "Z", "_", ".", "e", "uary", "day", "hem", "x1"}, spacePieces...)
 
 func mutate(r *hx.Rand, s string) string {
 	b := []byte(s)
@@ -458,6 +475,21 @@ func genParse(ctx *core.Ctx) {
 			base = "@every " + durations[r.Intn(len(durations))]
 		case 2:
 			base = tzPrefixes[r.Intn(len(tzPrefixes))] + randExpr(r, o.Opts, true)
+		case 3:
+			// a name in the month and the day-of-week field: mutations produce near misses
+			fields, _ := present(o.Opts)
+			var parts []string
+			for _, p := range fields {
+				switch p {
+				case 4:
+					parts = append(parts, caps(monthNames[r.Intn(12)], r.Intn(3)))
+				case 5:
+					parts = append(parts, caps(dowNames[r.Intn(7)], r.Intn(3)))
+				default:
+					parts = append(parts, "*")
+				}
+			}
+			base = strings.Join(parts, " ")
 		default:
 			base = randExpr(r, o.Opts, true)
 		}
@@ -614,6 +646,70 @@ func realTransitions(z *zoneTab) []int {
 	return idx
 }
 
+var leapScheds = []sched{
+	{380, "0 0 29 2 *"}, {381, "0 0 0 29 2 *"}, {380, "30 12 29 feb ?"}, {380, "0 0 29 2 */1"},
+	{380, "0 0 29,30 2 *"}, {381, "59 59 23 29 FEB *"}, {380, "0 0 29-31 2 ?"},
+}
+
+func genWindowEdge(ctx *core.Ctx, g *nextGen) {
+	r := ctx.R
+	addFar := func(s sched, L int64) {
+		off := fixedOffsets[r.Intn(len(fixedOffsets))]
+		in := c04Input{Kind: "next", Opts: s.Opts, Expr: s.Expr, Zone: "fixed:" + strconv.FormatInt(off, 10), T: L - off}
+		if r.Chance(1, 4) {
+			in.Mode = "sched"
+		}
+		if err := runNext(ctx, in); err != nil {
+			panic(err)
+		}
+		ctx.Sink.Count("next/window-edge-leap-day")
+	}
+	k := 0
+	pick := func() sched { k++; return leapScheds[k%len(leapScheds)] }
+	for _, c := range []int{1900, 2100, 2200} {
+		core := []int64{
+			utc(c-1, 3, 1, 0, 0, 0),      // next match c+4-02-29 = start year + 5: the last year of the window
+			utc(c-1, 1, 1, 0, 0, 0),      // the same from the first second of that year
+			utc(c-2, 12, 31, 23, 59, 59), // the upcoming second is in year c-1: still inside
+			utc(c-2, 12, 31, 23, 59, 58), // ... one second earlier: year c-2, window ends c+3: zero time
+			utc(c-2, 6, 15, 12, 0, 0),    // just outside
+			utc(c-4, 3, 1, 0, 0, 0),      // eight years to the next match: zero time
+			utc(c-4, 2, 28, 23, 59, 59),  // the match is the next second
+			utc(c-4, 2, 29, 0, 0, 0),     // asked AT a match: eight years to the next one
+			utc(c-1, 12, 31, 23, 59, 59), // start year c: match at +4
+			utc(c, 3, 1, 0, 0, 0),
+			utc(c+4, 2, 28, 12, 0, 0),
+		}
+		for _, L := range core {
+			addFar(pick(), L)
+		}
+		n := 12
+		if ctx.Thorough {
+			n = 300
+		}
+		for i := 0; i < n; i++ {
+			y := r.Range(c-6, c+5)
+			var L int64
+			switch r.Intn(4) {
+			case 0:
+				L = utc(y, 12, 31, 23, 59, 59) + int64(r.Range(-2, 1))
+			case 1:
+				L = utc(y, 2, 28, 23, 59, 59) + int64(r.Range(-1, 86402))
+			case 2:
+				L = utc(y, 3, 1, 0, 0, 0) + int64(r.Range(-2, 2))
+			default:
+				L = utc(y, time.Month(r.Range(1, 12)), r.Range(1, 28), r.Intn(24), r.Intn(60), r.Intn(60))
+			}
+			addFar(pick(), L)
+		}
+	}
+	// ordinary leap years too: the year limit is a CALENDAR-year bound, so year ends matter
+	for i := 0; i < 10; i++ {
+		y := 1972 + 4*r.Intn(15) + r.Intn(4)
+		addFar(pick(), utc(y, 12, 31, 23, 59, 59)+int64(r.Range(-1, 1)))
+	}
+}
+
 func genNext(ctx *core.Ctx) {
 	r := ctx.R
 	g := &nextGen{ctx: ctx}
@@ -644,6 +740,12 @@ func genNext(ctx *core.Ctx) {
 			ctx.Sink.Count("next/fixed-offset")
 		}
 	}
+	// window edges: the only schedules whose matches can be more than four calendar years
+	// apart are leap-day schedules across a non-leap century year (1900, 2100, 2200: eight
+	// years). Instants around those years, chosen so that the true next match lies in the
+	// last year of the five-year window (just inside), just outside it, or right behind the
+	// instant; fixed offsets only (no zone table reaches that far)
+	genWindowEdge(ctx, g)
 	// every fixed schedule at least once on a fixed offset
 	for _, s := range fixedScheds {
 		off := fixedOffsets[r.Intn(len(fixedOffsets))]
